@@ -420,6 +420,23 @@ def gen_ws_once(rng):
             data = [num(5, 90) for _ in range(nb)]
             if si > 0 and rng.random() < 0.25:
                 data[rng.randrange(nb)] = 0 if ints else 0.0
+            if rng.random() < (0.22 if si > 0 else 0.08):
+                # yields are any numbers: a template with negative content in some or all bins (interference, subtraction of a
+                # data-driven estimate), mostly small against the other samples of the channel
+                for j in range(nb):
+                    if data[j] != 0 and rng.random() < 0.6:
+                        data[j] = -(num(1, 6) if rng.random() < 0.7 else data[j])
+
+            def unc_of(x, lo, hi):
+                """absolute per-bin uncertainty: any number as well -- mostly a positive fraction of |x|, sometimes zero on a filled bin,
+                sometimes negative, and zero or not on an empty bin"""
+                if x == 0:
+                    return 0.0 if rng.random() < 0.7 else 0.5
+                r = rng.random()
+                if r < 0.08:
+                    return 0.0
+                u = round(abs(x) * rng.uniform(lo, hi), 3)
+                return -u if r < 0.14 else u
             mods = []
             if s == 'sig':
                 mods.append({'name': 'mu', 'type': 'normfactor', 'data': None})
@@ -431,12 +448,12 @@ def gen_ws_once(rng):
                                                                         'lo_data': [round(x * rng.uniform(0.8, 1.0), 3) for x in data]}})
                 fixable.append(nm)
             if rng.random() < 0.5:
-                unc = [round(x * rng.uniform(0.02, 0.2), 3) if x != 0 else (0.0 if rng.random() < 0.7 else 0.5) for x in data]
+                unc = [unc_of(x, 0.02, 0.2) for x in data]
                 if ints and rng.random() < 0.5:
-                    unc = [int(u) + 1 if x != 0 else 0 for u, x in zip(unc, data)]
+                    unc = [int(abs(u)) + 1 if x != 0 else 0 for u, x in zip(unc, data)]
                 mods.append({'name': statname, 'type': 'staterror', 'data': unc})
             if rng.random() < 0.35:
-                unc = [round(x * rng.uniform(0.02, 0.3), 3) if x != 0 else (0.0 if rng.random() < 0.7 else 0.5) for x in data]
+                unc = [unc_of(x, 0.02, 0.3) for x in data]
                 mods.append({'name': 'ss_%s_%s' % (cn, s), 'type': 'shapesys', 'data': unc})
             if rng.random() < 0.15 and not any(m['type'] == 'shapefactor' for x in samples for m in x['modifiers']):
                 mods.append({'name': 'sf_' + cn, 'type': 'shapefactor', 'data': None})
@@ -452,7 +469,7 @@ def gen_ws_once(rng):
         channels.append({'name': cn, 'samples': samples})
     if lumi_used and not any(m['type'] == 'lumi' for c in channels for s in c['samples'] for m in s['modifiers']):
         channels[0]['samples'][0]['modifiers'].append({'name': 'lumi', 'type': 'lumi', 'data': None})
-    obs = [{'name': c['name'], 'data': [num(20, 200) for _ in c['samples'][0]['data']]} for c in channels]
+    obs = [{'name': c['name'], 'data': [num(20, 200) if rng.random() < 0.9 else (0 if ints else 0.0) for _ in c['samples'][0]['data']]} for c in channels]
     rng.shuffle(obs)
     nfs = sorted(set(nfs))
     fixable = sorted(set(fixable) | set(nfs))
@@ -846,7 +863,8 @@ def run(ctx):
                         'names without spaces/newlines (ParamSetting text is split on blanks)']
     found = False
     stats = dict(cycles=0, faults={}, outcomes={}, modifier_types={}, lumi_values={}, int_yield_cases=0, lossy_cases=0,
-                 logpdf={}, measurements={}, guards_true=0)
+                 logpdf={}, measurements={}, guards_true=0, negative_yield_cases=0, negative_yield_with_binwise_uncertainty=0,
+                 zero_uncertainty_on_filled_bin=0, negative_uncertainty=0)
     sigs = set()
 
     # ---- cases: corpus + targeted first, then generated ----
@@ -901,6 +919,12 @@ def run(ctx):
         stats['measurements'][len(ws['measurements'])] = stats['measurements'].get(len(ws['measurements']), 0) + 1
         stats['int_yield_cases'] += any(isinstance(x, int) for ch in ws['channels'] for s in ch['samples'] for x in s['data'])
         stats['lossy_cases'] += not lossless(ws)
+        binwise = [(x, n) for ch in ws['channels'] for s in ch['samples'] for m in s['modifiers'] if m['type'] in ('staterror', 'shapesys')
+                   for x, n in zip(m['data'], s['data'])]
+        stats['negative_yield_cases'] += any(x < 0 for ch in ws['channels'] for s in ch['samples'] for x in s['data'])
+        stats['negative_yield_with_binwise_uncertainty'] += any(n < 0 and x != 0 for x, n in binwise)
+        stats['zero_uncertainty_on_filled_bin'] += any(n != 0 and x == 0 for x, n in binwise)
+        stats['negative_uncertainty'] += any(x < 0 for x, n in binwise)
         if c['fault'] is None:
             real, f = check_cycle(ctx, ws, d, rng, c['label'])
             found = found or f
